@@ -504,6 +504,59 @@ theorem step_applyW (s : S) (h : WF s) (w : WOp) : Step s (applyW s w) := by
         show (AList.find? (touchState (getOrNew s a).1 a (getOrNew s a).2 k).origin k).isSome
         rw [hw']; rfl
 
+/-! ### reads -/
+
+theorem wf_modObj (s : S) (a : Nat) (f : Obj → Obj) (h : WF s) (hf : ∀ o, WFObj s.txStore a o → WFObj s.txStore a (f o)) :
+    WF (modObj s a f) := by
+  obtain ⟨w1, w2, w3⟩ := WF_getObj s a h
+  unfold modObj
+  rcases hg : getObj s a with ⟨s1, _ | o⟩
+  · rw [hg] at w1; exact w1
+  · rw [hg] at w1 w2 w3
+    simp only at w1 w2 w3 ⊢
+    refine WF_setObj s1 a (f o) w1 ?_
+    rw [w2]
+    exact hf o (w3 o rfl)
+
+theorem grows_modObj' (t : S) (a : Nat) (f : Obj → Obj) (hf : ∀ o, OriginSub o (f o)) : Grows t (modObj t a f) := by
+  obtain ⟨m1, m2, m3, m4⟩ := modObj_find t a f
+  refine ⟨m1, m2, fun b o hb => ?_⟩
+  by_cases hab : a = b
+  · subst hab
+    rw [m4, hb]
+    exact ⟨f o, rfl, hf o⟩
+  · rw [m3 b hab]; exact ⟨o, hb, OriginSub.refl o⟩
+
+theorem cacheOrigin_originSub (s : S) (a : Nat) (o : Obj) (k : Nat) : OriginSub o (cacheOrigin s a o k) := by
+  intro k' hk'
+  unfold cacheOrigin
+  cases ho : AList.find? o.origin k with
+  | some w => exact hk'
+  | none =>
+    simp only
+    by_cases e : k = k'
+    · subst e; rw [AList.find?_set_self]; rfl
+    · rw [AList.find?_set_ne _ _ _ _ e]; exact hk'
+
+theorem step_read (s : S) (h : WF s) (r : ROp) : Step s (applyR s r) := by
+  have hi := inert_read s r
+  have hwf : WF (applyR s r) := by
+    cases r with
+    | acc a => show WF (readAcc s a).1; rw [readAcc_fst]; exact (WF_getObj s a h).1
+    | state a k =>
+      show WF (getState s a k).1; rw [getState_fst]
+      exact wf_modObj s a _ h (fun o ho => (WFObj_touchState s a o k ho).1)
+    | committed a k =>
+      show WF (getCommitted s a k).1; rw [getCommitted_fst]
+      exact wf_modObj s a _ h (fun o ho => (WFObj_cacheOrigin s a o k ho).1)
+  have hg : Grows s (applyR s r) := by
+    cases r with
+    | acc a => show Grows s (readAcc s a).1; rw [readAcc_fst]; exact grows_getObj s a
+    | state a k => show Grows s (getState s a k).1; rw [getState_fst]; exact grows_modObj' s a _ (fun o => touch_originSub s a o k)
+    | committed a k =>
+      show Grows s (getCommitted s a k).1; rw [getCommitted_fst]; exact grows_modObj' s a _ (fun o => cacheOrigin_originSub s a o k)
+  exact step_of_grows hwf [] (by simp [hi.journal]) (by simp) True.intro hg
+
 theorem WF_createAccount (s : S) (a : Nat) (h : WF s) : WF (createAccount s a) := by
   obtain ⟨w1, w2, _⟩ := WF_getObj s a h
   unfold createAccount
@@ -598,6 +651,7 @@ theorem runT_inv (b : Tree) (s : S) (hi : Inv s) (hrev : RevOK s) : ∃ s', runT
   have hc : s.cache = none := hi.1.1
   cases b with
   | w op => exact ⟨applyW s op, rfl, inv_step hi (step_applyW s hi.1 op), ext2_write s hc op⟩
+  | r op => exact ⟨applyR s op, rfl, inv_step hi (step_read s hi.1 op), ext2_of_inert (inert_read s op) hc⟩
   | create a => exact ⟨createAccount s a, rfl, inv_step hi (step_createAccount s hi.1 a), ext2_create s hc a⟩
   | frame ok body =>
     have x0 := ext2_snapshot s hc
